@@ -193,8 +193,6 @@ def check(ctx):
                    'of that key: credentials without a role list raise '
                    'instead of denying' % key[0])
     ctx.count(len(t.paths))
-    ctx.floor('C04.MEMBER', n_member, 1, 'membership results')
-    ctx.floor('C04.SUBST', n_subst, 1, 'substitution handlers')
     # the substitution must be guarded at all
     scope = [f] + [prog.functions[h] for h in helpers
                    if h in prog.functions]
@@ -207,3 +205,5 @@ def check(ctx):
            'the placeholder substitution is guarded by a handler'
            if subst_in_try else 'the placeholder substitution is not '
            'guarded: a missing target key raises instead of denying')
+    ctx.floor('C04.MEMBER', n_member, 1, 'membership results')
+    ctx.floor('C04.SUBST', n_subst, 1, 'substitution handlers')
